@@ -302,6 +302,38 @@ def constrained_cases_ext():
     out.append(('SEQUENCE WITH COMPONENTS {id PRESENT, name ABSENT}, huge values', rec_absent,
                 [(tlv(0x30, bytes.fromhex('020105') + big_name), False), (tlv(0x30, bytes.fromhex('020105')), True),
                  (tlv(0x30, big_name), False)]))
+    # set expressions whose operands are themselves compound: a union with an intersection / an exclusion as an alternative,
+    # an exclusion of a union, an intersection of unions - alone, as a record member and as a collection element
+    C_ = constraint
+    a_and_b_or_c = univ.Integer().subtype(subtypeSpec=C_.ConstraintsUnion(
+        C_.ConstraintsIntersection(C_.ValueRangeConstraint(0, 100), C_.ValueRangeConstraint(50, 200)), C_.SingleValueConstraint(300)))
+    compound = [('INTEGER ((0..100) ^ (50..200) | 300)', a_and_b_or_c,
+                 [(0, False), (49, False), (50, True), (100, True), (101, False), (150, False), (300, True), (301, False)]),
+                ('INTEGER (ALL EXCEPT (0..5) | 3)', univ.Integer().subtype(subtypeSpec=C_.ConstraintsUnion(
+                    C_.ConstraintsExclusion(C_.ValueRangeConstraint(0, 5)), C_.SingleValueConstraint(3))),
+                 [(0, False), (3, True), (5, False), (6, True), (-1, True)]),
+                ('INTEGER (ALL EXCEPT ((0..5) | (10..15)))', univ.Integer().subtype(subtypeSpec=C_.ConstraintsExclusion(
+                    C_.ConstraintsUnion(C_.ValueRangeConstraint(0, 5), C_.ValueRangeConstraint(10, 15)))),
+                 [(0, False), (7, True), (12, False), (16, True)]),
+                ('INTEGER ((0..5 | 10..15) ^ (4..11 | 15))', univ.Integer().subtype(subtypeSpec=C_.ConstraintsIntersection(
+                    C_.ConstraintsUnion(C_.ValueRangeConstraint(0, 5), C_.ValueRangeConstraint(10, 15)),
+                    C_.ConstraintsUnion(C_.ValueRangeConstraint(4, 11), C_.SingleValueConstraint(15)))),
+                 [(3, False), (4, True), (5, True), (7, False), (10, True), (11, True), (12, False), (15, True)])]
+    for cname, cschema, probes in compound:
+        def ienc(z):
+            n = max(1, (z.bit_length() + 8) // 8)
+            return tlv(2, z.to_bytes(n, 'big', signed=True))
+        out.append((cname, cschema, [(ienc(z), adm) for z, adm in probes]))
+        member = univ.Sequence(componentType=namedtype.NamedTypes(namedtype.NamedType('a', univ.Boolean()), namedtype.NamedType('n', cschema)))
+        out.append(('SEQUENCE {a BOOLEAN, n %s}' % cname, member, [(tlv(0x30, bytes.fromhex('0101ff' + ienc(z))), adm) for z, adm in probes]))
+        coll = univ.SequenceOf(componentType=cschema)
+        ok_z = [z for z, adm in probes if adm][0]
+        out.append(('SEQUENCE OF %s' % cname, coll, [(tlv(0x30, bytes.fromhex(ienc(ok_z) + ienc(z))), adm) for z, adm in probes]))
+    sized_alpha = univ.OctetString().subtype(subtypeSpec=C_.ConstraintsUnion(
+        C_.ConstraintsIntersection(C_.ValueSizeConstraint(1, 3), C_.PermittedAlphabetConstraint(97, 98)), C_.ValueSizeConstraint(6, 6)))
+    out.append(('OCTET STRING (SIZE (1..3) ^ FROM ("ab") | SIZE (6))', sized_alpha,
+                [(tlv(4, b''), False), (tlv(4, b'ab'), True), (tlv(4, b'abc'), False), (tlv(4, b'abab'), False), (tlv(4, b'xyzxyz'), True),
+                 (tlv(4, b'x'), False), (tlv(4, b'aaaa'), False)]))
     small_bits = univ.BitString().subtype(subtypeSpec=constraint.ValueSizeConstraint(1, 64))
     out.append(('BIT STRING (SIZE 1..64), huge values', small_bits,
                 [(tlv(3, b'\x00' + b'\xa5' * 2500), False), (tlv(3, b'\x00' + b'\xa5' * 8), True), (tlv(3, b'\x00' + b'\xa5' * 9), False)]))
